@@ -81,7 +81,7 @@ pred wmInv(wm) := wm.lastSentWatermark <= wm.currentWatermark && wm.maxEventTime
   && (wm.maxOutOfOrderness >= 0 && !zero(wm.maxEventTime) && wm.idleTimeout <= 0 ==> zero(wm.currentWatermark) || wm.currentWatermark <= wm.maxEventTime - wm.maxOutOfOrderness)
 
 func (*Watermark).sendWatermarkLocked
-  props C02
+  props C02 C08 C10
   held wm.mu
   option channel_events
   requires wm.lastSentWatermark <= wm.currentWatermark
